@@ -119,6 +119,14 @@ impl Same for Item { fn same(&self, o: &Self) -> bool { self == o } }
 enum Shape { Unit, Other, New(i64), NewS(String), Tup(i32, String), Rec { w: u64, h: Option<i8> } }
 impl Same for Shape { fn same(&self, o: &Self) -> bool { self == o } }
 
+/// a recursive value: depth = number of links
+#[derive(Serialize, Deserialize, Debug, Clone, PartialEq)]
+enum Chain { End, Link(Box<Chain>) }
+same_eq!(Chain);
+#[derive(Serialize, Deserialize, Debug, Clone, PartialEq)]
+struct Nest { inner: Option<Box<Nest>>, tag: u8 }
+same_eq!(Nest);
+
 // types that share their name with a type of another module (serde hands a serialiser the bare name only)
 mod billing {
     use serde::{Deserialize, Serialize};
@@ -426,6 +434,15 @@ fn main() {
     rep.sample(json!({"type": "char", "values": if thorough { "all 1 112 064 scalar values" } else { "all below U+0800 and every plane boundary" }}));
     let shapes = derived_struct_shapes(rep);
     rep.set_extra("derived_struct_shapes", shapes);
+    // values nested 10..250 levels deep (inside the decoder's limit of 256)
+    std::thread::scope(|sc| { std::thread::Builder::new().stack_size(64 << 20).spawn_scoped(sc, || {
+        for depth in [10usize, 60, 120, 130, 200, 250] {
+            let mut c = Chain::End; for _ in 0..depth { c = Chain::Link(Box::new(c)); }
+            check(&rep, "Chain (recursive enum)", &c);
+            let mut n = Nest { inner: None, tag: 0 }; for i in 0..depth { n = Nest { inner: Some(Box::new(n)), tag: i as u8 }; }
+            check(&rep, "Nest (recursive struct)", &n);
+        }
+    }).unwrap().join().unwrap(); });
     // same-named types of two modules, each value of one right after each value of the other on this thread, both ways round
     {
         let bk = vec![billing::Kind::Created, billing::Kind::Archived, billing::Kind::Amount(-5), billing::Kind::Pair(1, "x".into()), billing::Kind::Rec { a: 7 }];
